@@ -994,10 +994,38 @@ func (gen *Generator) Generate(expr Sexp) error {
 		}
 	case *SexpArray:
 		return gen.GenerateArray(e)
+	case *SexpHash:
+		if e.TypeName == "hash" {
+			return gen.GenerateHashLiteral(e)
+		}
+		gen.AddInstruction(PushInstr{expr})
+		return nil
 	default:
 		gen.AddInstruction(PushInstr{expr})
 		return nil
 	}
+	return nil
+}
+
+// GenerateHashLiteral: a hash object standing in the code is a literal
+// (the reader makes one for {}), like an array literal: every evaluation
+// yields a new hash with the same keys and values, not the one object that
+// was built when the text was read.
+func (gen *Generator) GenerateHashLiteral(h *SexpHash) error {
+	n := 0
+	for _, key := range h.KeyOrder {
+		val, err := h.HashGetDefault(gen.env, key, SexpEnd)
+		if err != nil {
+			return err
+		}
+		if val == SexpEnd {
+			continue
+		}
+		gen.AddInstruction(PushInstr{key})
+		gen.AddInstruction(PushInstr{val})
+		n += 2
+	}
+	gen.AddInstruction(CallInstr{gen.env.MakeSymbol("hash"), n})
 	return nil
 }
 
